@@ -210,8 +210,8 @@ H_ASSIGN_SELF(h_assign_self_m)
 /*@COMMON@*/
 /* self-aliasing sources for insert and append ([string.insert]/[string.append]: s.insert(i, s), s.insert(i, s.data()+k, c), s.append(s),
  * s += s and s.append(s.data()+k, c) are well defined: the characters are those the string held BEFORE the call) */
-#define H_INSERT_SELF(NAME) void NAME(void) { ARB(s); VF_INPUT(unsigned char, i); VF_INPUT(unsigned char, k); VF_INPUT(unsigned char, c); VF_INPUT(unsigned char, which); view_t o = view_of(&s); \
-  __CPROVER_assume(i <= o.n && k <= o.n && c <= o.n - k && o.n + c <= N && which <= 3); char old[N + 1]; for (int j = 0; j <= N; ++j) old[j] = o.a[j]; S *r; \
+#define H_INSERT_SELF(NAME, CMAX) void NAME(void) { ARB(s); VF_INPUT(unsigned char, i); VF_INPUT(unsigned char, k); VF_INPUT(unsigned char, c); VF_INPUT(unsigned char, which); view_t o = view_of(&s); \
+  __CPROVER_assume(i <= o.n && k <= o.n && c <= o.n - k && c <= (CMAX) && o.n + c <= N && which <= 3); char old[N + 1]; for (int j = 0; j <= N; ++j) old[j] = o.a[j]; S *r; \
   if (which == 0) r = s_insert_ptr_n(&s, i, BUF(s) + k, c); else if (which == 1) r = s_insert_sv(&s, i, BUF(s) + k, c); else if (which == 2) r = s_insert_str_pos_n(&s, i, &s, k, c); \
   else { __CPROVER_assume(k == 0 && c == o.n); r = s_insert_str(&s, i, &s); } \
   POST(s, sp_splice(o, i, 0, old + k, c), "insert(i, <characters of the string itself>): the inserted characters are the old substring [k, k+c)"); VF_ASSERT(r == &s, "insert returns *this"); VF_REACH(); }
@@ -232,9 +232,9 @@ H_ASSIGN_SELF(h_assign_self_m)
 /*@GROUP name=self_operand props=C04,C02,C05 kind=K unwind=11 when=VF_N<=7@*/
 H_SELF_OPERAND(h_self_operand)
 /*@GROUP name=insert_self props=C04,C02 kind=K unwind=11 when=VF_N<=7@*/
-H_INSERT_SELF(h_insert_self)
-/*@GROUP name=insert_self_m props=C04,C02 kind=K unwind=20 when=7<VF_N<=16 objbits=13 tier=thorough timeout=3000@*/
-H_INSERT_SELF(h_insert_self_m)
+H_INSERT_SELF(h_insert_self, N)
+/*@GROUP name=insert_self_m props=C04,C02 kind=B bound=inserted<=2 unwind=20 when=7<VF_N<=16 objbits=13 tier=thorough timeout=3000@*/
+H_INSERT_SELF(h_insert_self_m, 2)   /* at most two inserted characters: the full range did not finish in 3000 s at capacity 15/16 */
 /*@GROUP name=append_self props=C04,C02 kind=K unwind=11 when=VF_N<=7@*/
 H_APPEND_SELF(h_append_self)
 /*@GROUP name=append_self_m props=C04,C02 kind=K unwind=20 when=7<VF_N<=16 objbits=13 tier=thorough timeout=3000@*/
